@@ -616,7 +616,7 @@ class Terms:
             elif "idx" in e:
                 t = ("index", t, ("local", e["idx"]))
             elif "cidx" in e:
-                t = ("index", t, ("const", "int", (-1 - e["cidx"]) if e.get("from_end") else e["cidx"]))
+                t = ("index", t, ("const", "int", (-e["cidx"]) if e.get("from_end") else e["cidx"]))
             elif "sub" in e:
                 t = ("subslice", t, tuple(e["sub"]), e.get("from_end"))
             else:
